@@ -1,6 +1,6 @@
 SPECIFICATION Spec
 CONSTANTS
-  MaxSlots = 6
+  MaxSlots = 5
   MaxOrder = 4
   Triples <- TTriples
   Export = TRUE
